@@ -144,16 +144,43 @@ pub fn main() -> i32 {
                 let c = mates::classify(&pos);
                 for h in [vec![], vec![2u8]] {
                     for depth in [3u8, 4] {
-                        if let Some((Some(mv), _)) = mates::run_history(fen, &h, depth) {
-                            if let Some(why) = mates::judge_move(&pos, &c, &mv) {
+                        match mates::run_history(fen, &h, depth) {
+                            Some((_, Some(p))) => {
                                 bad += 1;
-                                println!("{fen}\t{h:?} d{depth}\t{why}");
+                                println!("{fen}\t{h:?} d{depth}\tpanic {p}");
                             }
+                            Some((Some(mv), None)) => {
+                                if let Some(why) = mates::judge_move(&pos, &c, &mv) {
+                                    bad += 1;
+                                    println!("{fen}\t{h:?} d{depth}\t{why}");
+                                }
+                            }
+                            _ => {}
                         }
                     }
                 }
             }
             println!("misjudged {bad}");
+            0
+        }
+        "stalemate-filter" => {
+            // debug / family construction: keeps the "label\tfen" lines from which a stalemate is reachable within 3 plies
+            let path = args.rest.first().cloned().unwrap_or_default();
+            let text = std::fs::read_to_string(&path).unwrap_or_default();
+            fn reach(p: &oracle::Pos, plies: u32) -> bool {
+                let ms = p.legal_moves();
+                if ms.is_empty() {
+                    return !p.in_check(p.white);
+                }
+                plies > 0 && ms.iter().any(|m| reach(&p.make(m), plies - 1))
+            }
+            for line in text.lines() {
+                let Some((_, fen)) = line.split_once('\t') else { continue };
+                let Ok(pos) = oracle::Pos::from_fen(fen) else { continue };
+                if reach(&pos, 3) {
+                    println!("{line}");
+                }
+            }
             0
         }
         "flood-debug" => {
